@@ -88,7 +88,7 @@ func c04Str(rng *rand.Rand) string {
 	return sb.String()
 }
 
-var c04Floats = []float64{0.5, 1.5, 3, -2.25, 1e21, 1e-7, 100, 9007199254740993, math.Inf(1)}
+var c04Floats = []float64{0.5, 1.5, 3, -2.25, 1e21, 1e-7, 100, 9007199254740993, math.Inf(1), 16777216, 16777217, 0.1, 0.10000000149011612} // incl. neighbours that collide at float32 precision
 
 // c04ColVal draws a value of column type ty: 0 string, 1 int, 2 float, 3 bool; NULL / missing anywhere.
 func c04ColVal(rng *rand.Rand, ty int) string {
@@ -149,6 +149,22 @@ func c04TuplePool(rng *rand.Rand, arity, size int) [][]string {
 				u[i], u[i+1] = c04ValTok(a+"\\", true), c04ValTok(b+sep+c2, true)
 				w[i], w[i+1] = c04ValTok(a+sep+b+"\\", true), c04ValTok(c2, true)
 				pool = append(pool, u, w)
+			}
+		}
+		if arity >= 1 && rng.Intn(3) == 0 {
+			// numeric neighbours that collide when a key is formatted at float32 precision / through float64
+			i := rng.Intn(arity)
+			var pair []string
+			switch tys[i] {
+			case 2:
+				pair = [][]string{{c04ValTok(16777216.0, true), c04ValTok(16777217.0, true)}, {c04ValTok(0.1, true), c04ValTok(0.10000000149011612, true)}}[rng.Intn(2)]
+			case 1:
+				pair = []string{c04ValTok(9007199254740992, true), c04ValTok(9007199254740993, true)}
+			}
+			for _, v := range pair {
+				u := append([]string(nil), t...)
+				u[i] = v
+				pool = append(pool, u)
 			}
 		}
 		if arity >= 1 && rng.Intn(4) == 0 {
